@@ -204,16 +204,66 @@ def gen(quick):
     return cases, types
 
 
+def distinct_cases():
+    """switches over `distinct` wrappers of an enum, an optional and an error union (exhaustive lists and
+    lists with a default arm; one uncovered and one duplicate list each)"""
+    cases = []
+    decls = ("DW_E :: enum { A: i32, B };\nDW_Err :: enum { Bad: u8, Worse };\n"
+             "DWE :: distinct DW_E;\nDWO :: distinct ?i32;\nDWU :: distinct DW_Err!i32;\n")
+    fams = [
+        ("DWE", [("DWE.(DW_E.A.(5))", "A", [5]), ("DWE.(DW_E.B)", "B", [])],
+         {"A": (".A", "pr(i64.(i32.(q)));"), "B": (".B", "")}),
+        ("DWO", [("DWO.(7)", "some", [7]), ("DWO.(nil)", "nil", [])],
+         {"some": ("i32", "pr(i64.(q));"), "nil": ("nil", "")}),
+        ("DWU", [("DWU.(9)", "ok", [9]), ("DWU.(DW_Err.Worse)", "err", [])],
+         {"ok": ("i32", "pr(i64.(q));"), "err": ("DW_Err", "")}),
+    ]
+    k = 0
+    for name, values, arms in fams:
+        keys = list(arms)
+        lists = [[keys[0], keys[1]], [keys[1], keys[0]], [keys[0], "_"], [keys[1], "_"], ["_"], [keys[0]], [keys[0], keys[0]]]
+        for lst in lists:
+            k += 1
+            named = [a for a in lst if a != "_"]
+            ok = len(named) == len(set(named)) and (set(named) == set(keys) or lst[-1] == "_")
+            src = []
+            for i, a in enumerate(lst):
+                if a == "_":
+                    src.append(f"_ => {{ pr({100 + i}); }}")
+                else:
+                    src.append(f"{arms[a][0]} => {{ pr({100 + i}); {arms[a][1]} }}")
+            fn = f"dsw{k}"
+            d = f"{fn} :: (v: {name}) {{ switch q in v {{ " + ", ".join(src) + " } pr(-9); }"
+            body, out = [], []
+            for lit, key, leaves in values:
+                body.append(f"{fn}({lit});")
+                idx = lst.index(key) if key in lst else lst.index("_") if "_" in lst else None
+                if idx is not None:
+                    out += [100 + idx] + (leaves if lst[idx] != "_" else []) + [-9]
+            if ok:
+                cases.append(Case(f"distinct {name}/" + ",".join(lst), "\n".join(body), fmt_leaves(out), decls=d))
+            else:
+                cases.append(Case(f"distinct {name}/" + ",".join(lst), body[0], None, decls=d, accept=False))
+    return cases, decls
+
+
+def explains(model, m):
+    if model == "distinct-sum-type-switch":
+        return m.case.key.startswith("distinct ") and m.kind == "compiler-panic"
+    return False
+
+
 def run(tier, seed):
     started = time.time()
     quick = tier == "quick"
     cases, types = gen(quick)
+    dcases, ddecls = distinct_cases()
     decl_tys = [S2] + [T for T, _, _ in types]
     foreign_enums = []
     for T, own, foreign in types:
         if isinstance(T, Enum):
             foreign_enums.append(Enum("F" + T.name[1:], T.variants))
-    prelude = BASE + tyir.all_decls(decl_tys + foreign_enums) + "\npv40 : i32 : 40;\npv41 : i32 : 41;\n"
+    prelude = BASE + tyir.all_decls(decl_tys + foreign_enums) + "\npv40 : i32 : 40;\npv41 : i32 : 41;\n" + ddecls
     # an accepted case that is wrongly rejected makes its whole batch unobservable, so the unjudged
     # (covered + default) cases go in batches of their own
     judged = [c for c in cases if not c.accept or c.meta.get("judged")]
@@ -224,6 +274,9 @@ def run(tier, seed):
     m2 = r2.run(unjudged)
     # covered + default: a rejection is not a violation (the statement does not decide it)
     mism += [m for m in m2 if m.kind != "rejected"]
+    r3 = core.Runner("c11d", batch_size=10, prelude=prelude)
+    mism += r3.run(dcases)
+    cases = cases + dcases
     n_acc = sum(1 for c in cases if c.accept)
     outcomes = {c.expected for c in cases if c.accept}
     if n_acc < 50 or len(cases) - n_acc < 50:
@@ -234,7 +287,7 @@ def run(tier, seed):
         "traces_validated_against_impl": len(cases),
         "exhaustive": True,
         "rule": "a case = (sum type, arm list); every case is compiled by the real CLI; accepted ones are executed on every variant x two payloads",
-        "bounds_completed": {"sum_types": len(types), "max_variants": 3 if quick else 4,
+        "bounds_completed": {"sum_types": len(types), "distinct_wrappers": ["distinct enum", "distinct ?i32", "distinct Err!i32"], "max_variants": 3 if quick else 4,
                              "arm_lists": "all sequences over {qualified, shorthand, `_`, foreign variant, unknown shorthand, non-type} of length <= n+1 "
                                           "(quick: <= n for 3-variant enums), at most one non-own arm per list",
                              "expected_accept": n_acc, "expected_reject": len(cases) - n_acc, "not_judged_for_acceptance": len(unjudged)},
@@ -242,6 +295,6 @@ def run(tier, seed):
         "compilations": runner.compiles + r2.compiles,
         "samples": [{"case": c.key, "decls": c.decls[:400], "expected": c.expected, "accept": c.accept} for c in (cases[1], cases[len(cases) // 2], cases[-1])],
     }
-    core.finish("C11", tier, seed, started, coverage, mism, None, assumptions=[
+    core.finish("C11", tier, seed, started, coverage, mism, explains, assumptions=[
         "lists that name every variant and also end in a default arm are executed if accepted but not judged for acceptance",
     ])
